@@ -42,6 +42,9 @@ DICT_VALS = [{'x': 1}, {'y': 2}, {'x': 3, 'z': 'u'}, {'x': {'z': 1}}, {'x': {'w'
 EMPTY_VALS = [{}, {'x': {}}]            # empty branches: outside C15's quantifier (Dict + {'b': {}} drops b); generated, divergence-only
 VALS = FLAT_VALS + DICT_VALS
 # names that python finds on the CLASS before __getattr__ is asked (known finding K1), and a private name
+# keys spelled like the PARAMETER names of the methods under test (review t2 V4: `Dict(a=1)(self=...)`, `d.relabel(self='x')`, `d.relabel(keys='x')`
+# raised TypeError 'got multiple values for argument' before fix C16-T1): strings like any other
+ARG_KEYS = ['self', 'other', 'function', 'value', 'args', 'relabels']
 SHADOW_KEYS = ['keys', 'items', 'copy', 'get', 'update', 'values', 'pop', 'relabel', 'rename', 'apply', 'do']
 
 
@@ -111,6 +114,9 @@ def rand_da(rng, shadow=False):
     ks = rng.sample(KEYS, rng.choice([0, 1, 2, 3, 4, 5]))
     if shadow:
         ks = ks[:3] + rng.sample(SHADOW_KEYS, rng.choice([1, 2]))
+        rng.shuffle(ks)
+    elif rng.random() < 0.2:
+        ks = ks + rng.sample(ARG_KEYS, rng.choice([1, 2]))
         rng.shuffle(ks)
     return rng.choice([1, 1, 2, 2, 3, 4]), {k: rand_val(rng) for k in ks}
 
@@ -216,9 +222,20 @@ def gen_da(rng):
             tag = ('d.add-Dict-merge' if cls == 1 else 'd.add-DictSubclass-merge') if any(isinstance(d.get(k), dict) and isinstance(v, dict) for k, v in o.items()) else 'd.add-Dict-branch'
             return dict(tag=tag + ('-empty' if any(_has_empty(v) for v in o.values()) else ''), lines=['(c16 d.add %s %s)' % (D, arg)])
     elif op == 'd.relabel':
-        olds = rng.sample(KEYS, rng.choice([0, 1, 2]))
+        # (stateless: also `keys`, the first parameter of the module-level relabel(keys, ...) every d.relabel goes through)
+        if rng.random() < 0.3:
+            extra = rng.sample(ARG_KEYS + ['keys'], rng.choice([1, 2]))
+            d.update({k: rand_val(rng) for k in extra if k not in d})
+            D = encd(cls, d)
+        pool = sorted(set(KEYS) | set(d))
+        olds = rng.sample(pool, rng.choice([0, 1, 2])) + ([k for k in d if k in ARG_KEYS + ['keys']][:1] if rng.random() < 0.7 else [])
+        olds = list(dict.fromkeys(olds))
         fresh = ['A', 'B', 'C', 'D2']
+        if rng.random() < 0.15 and olds:
+            fresh = rng.sample([k for k in ARG_KEYS + ['keys'] if k not in d] + ['A'], 1) + fresh      # ... and as a NEW name
         arg = enc({k: fresh[i] for i, k in enumerate(olds)})       # new names never collide with existing keys
+        if any(k in ARG_KEYS + ['keys'] for k in olds + fresh[:len(olds)]):
+            return dict(tag='d.relabel-argname-keys', lines=['(c16 d.relabel %s %s)' % (D, arg)])
     else:
         return dict(tag=op, lines=['(c16 d.keys %s)' % D])
     return dict(tag=op, lines=['(c16 %s %s %s)' % (op, D, arg)])
@@ -272,7 +289,7 @@ def gen_da_history(rng):
             if all(k in d for k in ks):
                 shadow.append({k: d[k] for k in ks})
         elif op == 'relabel':
-            olds = rng.sample(KEYS, rng.choice([0, 1, 2]))
+            olds = rng.sample(sorted(set(KEYS) | (set(d) - set(SHADOW_KEYS) - {'_p'})), rng.choice([0, 1, 2]))
             fresh = ['A', 'B', 'C', 'D2']
             m = {k: fresh[i] for i, k in enumerate(olds) if fresh[i] not in d}
             lines.append('(c16 h.relabel %d %s)' % (h, enc(m)))
@@ -327,9 +344,10 @@ def rand_graph(rng, derived, base, cyclic):
 
 
 def gen_call(rng):
-    base = rng.sample(['a', 'b', 'c'], rng.choice([0, 1, 2, 3]))
+    argnames = rng.random() < 0.2       # base / derived keys spelled like parameter names of Dict.__call__ / apply (never `key`: see ASSUMPTIONS)
+    base = rng.sample(['a', 'self', 'function'] if argnames else ['a', 'b', 'c'], rng.choice([0, 1, 2, 3]))
     env = {k: rng.randrange(-3, 6) for k in base}
-    derived = rng.sample(['p', 'q', 'r', 's', 't', 'u'], rng.choice([0, 1, 2, 2, 3, 3, 4, 5, 6]))
+    derived = rng.sample(['p', 'self', 'other', 'value', 'function', 'u'] if argnames else ['p', 'q', 'r', 's', 't', 'u'], rng.choice([0, 1, 2, 2, 3, 3, 4, 5, 6]))
     if base and derived and rng.random() < 0.35:
         # a callable may REDEFINE a key the mapping already holds; its dependents must then wait for the new value
         for b in rng.sample(base, rng.choice([1, min(2, len(base))])):
@@ -346,7 +364,7 @@ def gen_call(rng):
         if k not in derived:
             kws.append((k, rng.randrange(10, 14)))
     rng.shuffle(kws)
-    return dict(tag='call-' + kind, lines=[call_line(env, kws)])
+    return dict(tag='call-' + kind + ('-argname-keys' if argnames and any(k in ARG_KEYS for k in list(env) + [k for k, _ in kws]) else ''), lines=[call_line(env, kws)])
 
 
 def gen_call_selfloop(rng):
@@ -877,7 +895,7 @@ def laws(rng, tier, ctx):
     m = 150 if tier == 'quick' else 3000
     for _ in range(m):
         c = gen_call(rng)
-        if c['tag'] == 'call-missing-arg':
+        if c['tag'].startswith('call-missing-arg'):
             continue
         sx = proto.parse(c['lines'][0])
         env = {proto.unhex(kv[0]): proto.dec(kv[1]) for kv in sx[2][1:]}
